@@ -998,7 +998,7 @@ fn gen11_interleave(seed: u64) -> WorldCase {
 // ---------------------------------------------------------------------------------------------
 
 /// (text, every evaluation reads the clock)
-const CLOCK_TEXTS: [(&str, bool); 57] = [
+const CLOCK_TEXTS: [(&str, bool); 64] = [
     ("now()", true),
     ("timestamp()", true),
     ("now() - timestamp(0)", true),
@@ -1062,6 +1062,16 @@ const CLOCK_TEXTS: [(&str, bool); 57] = [
     ("size([true.now(), 1])", true),
     ("{'a': null}.a.now()", true),
     ("[(1 == 1).now()]", true),
+    // degenerate constant arguments of the constructor: failures on the pinned tree; whatever they
+    // mean, a constant call of timestamp must not carry the compile instant into the program
+    // (twin compiled at the exec instant, bytecode compared across compile instants)
+    ("timestamp('')", false),
+    ("timestamp(' ')", false),
+    ("[timestamp(''), 1]", false),
+    ("timestamp('now')", false),
+    ("timestamp([])", false),
+    ("timestamp(false)", false),
+    ("x0 ? timestamp(' ') : timestamp('')", false),
 ];
 
 /// wrappers the constant folder could evaluate if their argument were constant
@@ -1279,6 +1289,20 @@ fn edge(construct: &str, tag: &str, next: &str) -> String {
         // the reference is reached for an element that precedes a deciding one
         "exists_before_deciding" => format!("'{}' + ([1, 2].exists(v, v == 1 ? {} == 'x' : true) ? 'y' : 'n')", tag, next),
         "all_before_deciding" => format!("'{}' + ([1, 2].all(v, v == 1 ? {} == 'x' : false) ? 'y' : 'n')", tag, next),
+        // the body (predicate, step, seed) of every macro over a list and over a map receiver:
+        // each builds its own interpreter for the body, each must carry the call depth
+        "body_all" => format!("'{}' + ([1].all(v, {} == 'x') ? 'y' : 'n')", tag, next),
+        "body_exists" => format!("'{}' + ([1].exists(v, {} == 'x') ? 'y' : 'n')", tag, next),
+        "body_exists_one" => format!("'{}' + ([1].exists_one(v, {} == 'x') ? 'y' : 'n')", tag, next),
+        "body_filter" => format!("'{}' + string(size([1].filter(v, {} == 'x')))", tag, next),
+        "body_map3_pred" => format!("'{}' + string(size([1].map(v, {} == 'x', v)))", tag, next),
+        "body_map3" => format!("'{}' + [1].map(v, true, {})[0]", tag, next),
+        "body_reduce_step" => format!("'{}' + [1].reduce(acc, v, acc + {}, '')", tag, next),
+        "body_reduce_seed" => format!("'{}' + [1].reduce(acc, v, acc, {})", tag, next),
+        "body_map_over_map" => format!("'{}' + {{'k': 1}}.map(v, {})[0]", tag, next),
+        "body_filter_over_map" => format!("'{}' + string(size({{'k': 1}}.filter(v, {} == 'x')))", tag, next),
+        "body_filter_over_bound_map" => format!("'{}' + string(size(bm.filter(v, {} == 'x')))", tag, next),
+        "body_map_over_bound_map" => format!("'{}' + bm.map(v, {})[0]", tag, next),
         _ => format!("f'{}{{{}}}'", tag, next),
     }
 }
@@ -1462,7 +1486,7 @@ fn scenarios(thorough: bool) -> Vec<Sc> {
             }
         }
     }
-    for c in ["or_absorbed", "list_element", "fstring_absorbed", "ctor_absorbed", "call_arg_absorbed", "macro_absorbed", "coalesce_absorbed", "has_absorbed", "ctor_in_list", "exists_before_deciding", "all_before_deciding"] {
+    for c in ["or_absorbed", "list_element", "fstring_absorbed", "ctor_absorbed", "call_arg_absorbed", "macro_absorbed", "coalesce_absorbed", "has_absorbed", "ctor_in_list", "exists_before_deciding", "all_before_deciding", "body_all", "body_exists", "body_exists_one", "body_filter", "body_map3_pred", "body_map3", "body_reduce_step", "body_reduce_seed", "body_map_over_map", "body_filter_over_map", "body_filter_over_bound_map", "body_map_over_bound_map"] {
         for len in 1..=3usize {
             for entry in 0..=1usize {
                 v.push(Sc::Cycle { construct: c, len, entry });
@@ -1912,6 +1936,9 @@ fn build12(sc: &Sc, seed: u64) -> WorldCase {
         Sc::Cycle { construct, len, entry } => {
             ops.push(Op { t: t_exec, k: OpK::BindFunc { b: 0, name: "idf".into(), ret: V::Other("arg0".into()) } });
             label = format!("cycle:{}:{}", construct, len);
+            if construct.contains("bound_map") {
+                bind(&mut ops, "bm", V::map(vec![("k", V::Int(1))]));
+            }
             // `entry` acyclic programs lead into a cycle of `len` programs
             let total = entry + len;
             let mut has_edges = 0;
